@@ -18,7 +18,6 @@ from __future__ import annotations
 
 import bz2
 import gzip
-import io
 import os
 import pathlib
 import random
@@ -102,14 +101,6 @@ def name_class(n):
     if n.isalnum() or n.replace("_", "").isalnum():
         return "name-alnum"
     return "name-punctuation"
-
-
-def len_class(lengths):
-    if any(L == 0 for L in lengths):
-        return "zero-length"
-    if len(set(lengths)) > 1:
-        return "ragged"
-    return "nonempty"
 
 
 def trunc_ok(orig, got):
@@ -288,7 +279,13 @@ def rt_eval(case):
     for (n, s), (gn, gs) in zip(spec, got):
         name_ok = trunc_ok(n, gn) if permissive else n == gn
         if not name_ok:
-            if sorted(x[0] for x in got) == sorted(names):
+            rest = [x[0] for x in got]
+            for n2 in names:                  # the same names in another order?
+                hit = next((g for g in rest if (trunc_ok(n2, g) if permissive else n2 == g)), None)
+                if hit is None:
+                    break
+                rest.remove(hit)
+            else:
                 return ("fail", "order", f"order written {names}, loaded {[x[0] for x in got]}")
             return ("fail", "names", f"name {n!r} came back as {gn!r} (all: {[x[0] for x in got]})")
     for (n, s), (gn, gs) in zip(spec, got):
@@ -386,7 +383,7 @@ def contract_roundtrip(case):
         small, r2 = minimise(case, rt_eval, rt_candidates, res[1])
         k2, m2, f2, c2, n2, s2 = small
         feats = ([c2] if c2 else []) + ([f"suffix={f2}"] if f2 != family(f2) else []) + ([m2] if m2 != "dna" else [])
-        feats += record_features(n2, s2)
+        feats += [f for f in record_features(n2, s2) if not (res[1] == "order" and f.startswith("name-"))]
         key = f"roundtrip/{k2}/{family(f2)}/{res[1]}" + ("/" + ",".join(feats) if feats else "")
         _MIN_CACHE[coarse] = (key, small, r2[2] if r2 else res[2])
     key, small, smsg = _MIN_CACHE[coarse]
@@ -605,9 +602,7 @@ PLAIN_LAY = {"width": 60, "eol": "\n", "final_eol": True, "blank": False, "lower
 def lay_tag(lay):
     tags = []
     for k in sorted(lay):
-        if k in PLAIN_LAY and lay[k] == PLAIN_LAY[k]:
-            continue
-        if k == "mt":
+        if k == "mt" or lay[k] == PLAIN_LAY.get(k, False):
             continue
         v = lay[k]
         tags.append(f"{k}={v!r}" if not isinstance(v, bool) else (k if v else f"no-{k}"))
